@@ -29,6 +29,8 @@ import QV.Lemmas.Hilbert
 import QV.Lemmas.CplxGrad
 import QV.Lemmas.Grouping
 import QV.Lemmas.DMGrad
+import QV.Lemmas.GradArgs
+import Mathlib.Analysis.SpecialFunctions.Log.ENNRealLog
 import QV.Props.C01
 import QV.Props.C02
 import QV.Props.C04
@@ -929,5 +931,241 @@ theorem C03_default_dictionary_ok :
 in particular at `U_μ = 0`, for arbitrary other parameters -/
 example (am ph : PRBM ℝ n h a) (hU : ∀ k, ∑ j, |ph.U k j| < 2 * Real.pi) : NZall am ph :=
   (NZall_iff am ph).mpr (C02.C02_NZ_of_phase_weights_small am ph hU)
+
+/-! ## Extension round 2 (code inside the model): call forms of `bases`, zero rotated amplitude, batch layout -/
+
+/-- **C03.8a (call forms of `bases`, batch)** `gradient(samples, bases)` with the arguments as the caller passes them
+(`gradientArgs`, neural_state.py:339-356; `core` is the grouped accumulation `gradientCplx am ph dict` /
+`gradientDM am ph dict eps` that `C03_exact_gradient_*` are about, `noBases` the `bases is None` branch): for a non-empty
+batch with one basis string per sample, all of one length `L ≤ n` (the code treats missing trailing sites as `Z`) and made of
+`Z` and dictionary letters, the documented `list[str]` / tuple / 1-D `ndarray` form (fix F22) and the 2-D array of letters
+are ACCEPTED and return the core value on the same per-sample (outcome, basis) pairs — so every theorem about
+`gradientCplx` / `gradientDM` applies to every form. A model that mis-expanded a form (e.g. read the list of strings
+as ONE row of letters, or dropped/duplicated a row) would fail this. -/
+theorem C03_bases_forms_agree {γ : Type} (keys : List Char) (noBases : List (Fin n → Bool) → γ)
+    (core : List (Sample n) → γ) (σs : List (Fin n → Bool)) (bs : List (List Char)) (hne : σs ≠ [])
+    (hlen : bs.length = σs.length) (L : ℕ) (hLn : L ≤ n) (hL : ∀ b ∈ bs, b.length = L)
+    (hkeys : ∀ b ∈ bs, ∀ c ∈ b, c = 'Z' ∨ c ∈ keys) :
+    gradientArgs keys noBases core (.batch σs) (.seq1 bs) = .ok (core (List.zipWith Sample.mk σs bs))
+    ∧ gradientArgs keys noBases core (.batch σs) (.seq2 (bs.map lettersOf))
+        = .ok (core (List.zipWith Sample.mk σs bs)) := by
+  have hbs : bs ≠ [] := by
+    intro h0; rw [h0] at hlen; exact hne (List.length_eq_zero_iff.mp hlen.symm)
+  obtain ⟨b0, bt, rfl⟩ := List.exists_cons_of_ne_nil hbs
+  have hrect : rect ((b0 :: bt).map lettersOf) = .ok ((b0 :: bt).map lettersOf) :=
+    rect_ok_of_lengths _ L (by
+      intro r hr
+      obtain ⟨b, hb, rfl⟩ := List.mem_map.1 hr
+      rw [length_lettersOf]; exact hL b hb)
+  have hall : ((b0 :: bt).map lettersOf).all (rowOk keys n) = true := by
+    rw [List.all_eq_true]
+    intro r hr
+    obtain ⟨b, hb, rfl⟩ := List.mem_map.1 hr
+    exact rowOk_lettersOf keys b n (by rw [hL b hb]; exact hLn) (hkeys b hb)
+  have hlen' : ((b0 :: bt).map lettersOf).length = σs.length := by rw [List.length_map]; exact hlen
+  have key : normBases (.seq1 (b0 :: bt)) false σs.length n keys = .ok ((b0 :: bt).map lettersOf) := by
+    simp only [normBases, toArray, Bool.false_eq_true, if_false, hrect, hlen', ne_eq, not_true_eq_false, hall, if_true]
+  have key2 : normBases (.seq2 ((b0 :: bt).map lettersOf)) false σs.length n keys = .ok ((b0 :: bt).map lettersOf) := by
+    have hr2 := hrect
+    rw [List.map_cons] at hr2 hlen' hall ⊢
+    simp only [normBases, toArray, Bool.false_eq_true, if_false, hr2, hlen', ne_eq, not_true_eq_false, hall, if_true]
+  constructor
+  · simp only [gradientArgs, SamplesArg.isOne, SamplesArg.rows, key, zipWith_toSample_lettersOf]
+  · rw [List.map_cons] at key2 ⊢
+    simp only [gradientArgs, SamplesArg.isOne, SamplesArg.rows, key2]
+    rw [← List.map_cons, zipWith_toSample_lettersOf]
+
+/-- **C03.8b (call forms, 1-D single sample)** the 1-D call form named in the quantifier: the basis as a Python `str`, as a
+list / 1-D char array of letters, as a one-row 2-D array — and the batch of one with `[str]` — all return the core value on
+the single pair `(σ, b)` (`C03_single_sample*` then give the per-sample gradient). -/
+theorem C03_bases_forms_agree_1d {γ : Type} (keys : List Char) (noBases : List (Fin n → Bool) → γ)
+    (core : List (Sample n) → γ) (σ : Fin n → Bool) (b : List Char) (hL : b.length ≤ n)
+    (hkeys : ∀ c ∈ b, c = 'Z' ∨ c ∈ keys) :
+    gradientArgs keys noBases core (.one σ) (.str b) = .ok (core [⟨σ, b⟩])
+    ∧ gradientArgs keys noBases core (.one σ) (.seq1 (lettersOf b)) = .ok (core [⟨σ, b⟩])
+    ∧ gradientArgs keys noBases core (.one σ) (.seq2 [lettersOf b]) = .ok (core [⟨σ, b⟩])
+    ∧ gradientArgs keys noBases core (.batch [σ]) (.seq1 [b]) = .ok (core [⟨σ, b⟩]) := by
+  have hrow := rowOk_lettersOf keys b n hL hkeys
+  have hts := toSample_lettersOf σ b
+  refine ⟨?_, ?_, ?_, ?_⟩
+  · simp [gradientArgs, normBases, toArray, SamplesArg.isOne, SamplesArg.rows, hrow, hts]
+  · simp [gradientArgs, normBases, toArray, SamplesArg.isOne, SamplesArg.rows, hrow, hts]
+  · simp [gradientArgs, normBases, toArray, rect, SamplesArg.isOne, SamplesArg.rows, hrow, hts]
+  · simp [gradientArgs, normBases, toArray, rect, SamplesArg.isOne, SamplesArg.rows, hrow, hts]
+
+/-- **C03.8c (refusals)** what `gradient` refuses, as coded: a single `str` for a 2-D batch (0-d array), an empty `bases`,
+a number of basis rows different from the number of samples (either container form), strings / rows of different
+lengths; and whatever it ACCEPTS has one row per sample whose entries are `"Z"` or one-letter dictionary keys. -/
+theorem C03_bases_forms_refused (keys : List Char) (nS nSites : ℕ) :
+    (∀ s, ∃ e, normBases (.str s) false nS nSites keys = .error e)
+    ∧ (∃ e, normBases (.seq1 []) false nS nSites keys = .error e)
+    ∧ (∃ e, normBases (.seq2 []) false nS nSites keys = .error e)
+    ∧ (∀ l : List Letter, l.length ≠ nS → ∃ e, normBases (.seq1 l) false nS nSites keys = .error e)
+    ∧ (∀ l : List (List Letter), l.length ≠ nS → ∃ e, normBases (.seq2 l) false nS nSites keys = .error e)
+    ∧ (∀ (r : List Letter) (rs : List (List Letter)) (x : List Letter), x ∈ rs → x.length ≠ r.length →
+        ∃ e, normBases (.seq2 (r :: rs)) false nS nSites keys = .error e)
+    ∧ (∀ b oneD arr, normBases b oneD nS nSites keys = .ok arr →
+        arr.length = nS ∧ ∀ row ∈ arr, ∀ e ∈ row, e = ['Z'] ∨ ∃ c ∈ keys, e = [c]) := by
+  refine ⟨fun s => ⟨.ValueError, by simp [normBases, toArray]⟩, ⟨.ValueError, by simp [normBases, toArray]⟩,
+    ⟨.ValueError, by simp [normBases, toArray]⟩, ?_, ?_, ?_, ?_⟩
+  · intro l hl
+    cases l with
+    | nil => exact ⟨.ValueError, by simp [normBases, toArray]⟩
+    | cons s l =>
+      cases hr : rect ((s :: l).map lettersOf) with
+      | error e => exact ⟨e, by simp only [normBases, toArray, Bool.false_eq_true, if_false, hr]⟩
+      | ok out =>
+        have := rect_ok_inv _ _ hr
+        have hlen : out.length ≠ nS := by rw [this, List.length_map]; exact hl
+        exact ⟨.IndexError, by simp only [normBases, toArray, Bool.false_eq_true, if_false, hr, ne_eq, hlen, not_false_eq_true, if_true]⟩
+  · intro l hl
+    cases l with
+    | nil => exact ⟨.ValueError, by simp [normBases, toArray]⟩
+    | cons s l =>
+      cases hr : rect (s :: l) with
+      | error e => exact ⟨e, by simp only [normBases, toArray, Bool.false_eq_true, if_false, hr]⟩
+      | ok out =>
+        have := rect_ok_inv _ _ hr
+        have hlen : out.length ≠ nS := by rw [this]; exact hl
+        exact ⟨.IndexError, by simp only [normBases, toArray, Bool.false_eq_true, if_false, hr, ne_eq, hlen, not_false_eq_true, if_true]⟩
+  · intro r rs x hx hne
+    exact ⟨.ValueError, by simp only [normBases, toArray, Bool.false_eq_true, if_false, rect_error_of_ragged r rs x hx hne]⟩
+  · intro b oneD arr hok
+    cases b with
+    | none =>
+      simp only [normBases, Except.ok.injEq] at hok
+      subst hok
+      refine ⟨by simp, fun row hrow e he => Or.inl ?_⟩
+      rw [List.eq_of_mem_replicate hrow] at he
+      exact List.eq_of_mem_replicate he
+    | str s | seq1 l | seq2 l =>
+      simp only [normBases] at hok
+      split at hok
+      · cases hok
+      · rename_i arr' _
+        split at hok
+        · cases hok
+        · rename_i hlen
+          split at hok
+          · rename_i hall
+            cases hok
+            refine ⟨by simpa using hlen, fun row hrow => ?_⟩
+            exact rowOk_entries keys nSites row (List.all_eq_true.mp hall row hrow)
+          · cases hok
+
+/-- satisfiable, non-trivially: two samples on two sites, `list[str]` bases `["XZ", "ZY"]` with the default letters -/
+example : ([[false, true], [true, true]].map (fun l => fun (j : Fin 2) => l.getD j.val false)) ≠ []
+    ∧ (["XZ".toList, "ZY".toList] : List (List Char)).length = 2
+    ∧ (∀ b ∈ (["XZ".toList, "ZY".toList] : List (List Char)), b.length = 2)
+    ∧ (∀ b ∈ (["XZ".toList, "ZY".toList] : List (List Char)), ∀ c ∈ b, c = 'Z' ∨ c ∈ ['X', 'Y', 'Z']) := by
+  refine ⟨by simp, by simp, by decide, by decide⟩
+
+/-- **C03.9 (zero rotated amplitude, coverage-map item 9)** `ComplexWaveFunction.rotated_gradient` divides by the rotated
+amplitude `Upsi` with no regulariser (`cplx.inverse(Upsi)`); `C03_sample_gradient_complex` carries `Upsi ≠ 0`. That guard
+excludes EXACTLY the samples on which the loss itself is undefined: `Upsi = 0` iff the Born probability of the sample's
+outcome in its own basis (dense Kronecker rotation, C04) is zero iff its negative log-likelihood term, computed in the
+extended reals, is `+∞`. At such a point the REAL-number model returns `0` for every component (`x / 0 = 0`), the code and
+the Float model `nan` (`0/0`; counted by the harness probe `zero-amplitude`): no finite gradient exists there. -/
+theorem C03_zero_amplitude_iff_infinite_nll (am ph : RBM ℝ n h) (dict : Char → M2 ℝ) (smp : Sample n)
+    (hZ : m2c (dict 'Z') = 1) :
+    (toC (cplxUpsi am ph dict smp) = 0 ↔ bornPsi (usOf dict smp) (psiOf am ph) smp.σ = 0)
+    ∧ (bornPsi (usOf dict smp) (psiOf am ph) smp.σ = 0
+        ↔ -(ENNReal.log (ENNReal.ofReal (bornPsi (usOf dict smp) (psiOf am ph) smp.σ))) = (⊤ : EReal))
+    ∧ (toC (cplxUpsi am ph dict smp) = 0 →
+        ∀ (isPhase : Bool) (g : (Fin n → Bool) → ℝ), cplxRotComp am ph dict smp isPhase g = 0) := by
+  refine ⟨?_, ?_, ?_⟩
+  · unfold bornPsi
+    rw [← C03_upsi_is_dense_amplitude am ph dict smp hZ, Complex.normSq_eq_zero]
+  · rw [EReal.neg_eq_top_iff, ENNReal.log_eq_bot_iff, ENNReal.ofReal_eq_zero]
+    have h0 : 0 ≤ bornPsi (usOf dict smp) (psiOf am ph) smp.σ := Complex.normSq_nonneg _
+    constructor
+    · intro h; rw [h]
+    · intro h; exact le_antisymm h h0
+  · intro hU isPhase g
+    have hU0 : cplxUpsi am ph dict smp = (0, 0) := by
+      by_contra hne
+      exact ((C.ne_zero_iff _).1 hne) hU
+    unfold cplxRotComp
+    rw [hU0, C.invH_zero]
+    simp [C.inv, C.mul, C.conj, C.normSq]
+
+/-- **C03.10a (batch layout of `gamma_grad`)** the tensor `PurificationRBM.gamma_grad(v, vp, eta, expand)` returns
+(`gammaGradT`: `unsqueezed`, `batch_sizes`, the `.view(*batch_sizes, -1)` index arithmetic `q ↦ [q / n, q % n]`, the offsets
+of `torch.cat([W, U, b, c, d], -1)`, the squeeze) holds, at `[i, j, :]` (`expand=True`, shape `(B, B', P)`) resp. `[i, :]`
+(`expand=False`, two batches of `B` rows, shape `(B, P)`) resp. `[:]` (1-D operands, shape `(P,)`), the per-pair record
+`gammaGrad` of `C03_sample_gradient_density` for the pair `(v_i, vp_j)` resp. `(v_i, vp_i)` in the `parameters()` order
+`PRBM.flatten` (the order `C03_layout_prbm` / `C06_lands_on_parameter_prbm` are about); other batch-size pairs are refused.
+A swapped `unsqueeze` axis, a transposed `view`, a wrong block order or offset in the model would fail this. -/
+theorem C03_gamma_grad_layout (r : PRBM ℝ n h a) (sgn : ℝ) (v vp : RowsArg ℝ n) :
+    (∃ t, gammaGradT r sgn true v vp = .ok t ∧ t.shape = [v.B, vp.B, h * n + a * n + n + h + a]
+      ∧ ∀ i j q, t.get [i, j, q] = (gammaGrad r sgn (v.row i) (vp.row j)).flatten.getD q 0)
+    ∧ (∀ B, v.batch = some B → vp.batch = some B →
+        ∃ t, gammaGradT r sgn false v vp = .ok t ∧ t.shape = [B, h * n + a * n + n + h + a]
+          ∧ ∀ i q, i < B → t.get [i, q] = (gammaGrad r sgn (v.row i) (vp.row i)).flatten.getD q 0)
+    ∧ (∀ B, B ≠ 1 → v.batch = some B → vp.B = 1 →
+        ∃ t, gammaGradT r sgn false v vp = .ok t ∧ t.shape = [B, h * n + a * n + n + h + a]
+          ∧ ∀ i q, t.get [i, q] = (gammaGrad r sgn (v.row i) (vp.row 0)).flatten.getD q 0)
+    ∧ ((v.batch = none ∨ vp.batch = none) → v.B = 1 → vp.B = 1 →
+        ∃ t, gammaGradT r sgn false v vp = .ok t ∧ t.shape = [h * n + a * n + n + h + a]
+          ∧ ∀ q, t.get [q] = (gammaGrad r sgn (v.row 0) (vp.row 0)).flatten.getD q 0)
+    ∧ (vp.B ≠ v.B → vp.B ≠ 1 → gammaGradT r sgn false v vp = .error .RuntimeError) :=
+  ⟨layoutT_expand v vp _, fun B hv hvp => layoutT_paired v vp _ B hv hvp,
+   fun B hB hv hvp => layoutT_broadcast v vp _ B hB hv hvp, fun hu hB hBp => layoutT_1d v vp _ hu hB hBp,
+   fun h1 h2 => layoutT_refused v vp _ h1 h2⟩
+
+/-- **C03.10b (batch layout of `pi_grad`)** the same for `DensityMatrix.pi_grad(v, vp, phase, expand)` (`piGradT`), real and
+imaginary part: `expand=True` holds the record `piGrad` of the pair `(v_i, vp_j)` at `[i, j, :]`; `expand=False` (the default,
+which evaluates the sigmoid at `mixing_term(v ± vp)`: `piGradNoExpand`, see `C03_pi_grad_branches_*`) the record of
+`(v_i, vp_i)` at `[i, :]`; 1-D operands give the squeezed `(P,)` record. -/
+theorem C03_pi_grad_layout (am ph : PRBM ℝ n h a) (phase : Bool) (v vp : RowsArg ℝ n) :
+    (∃ t, piGradT am ph phase true v vp = .ok t
+      ∧ t.1.shape = [v.B, vp.B, h * n + a * n + n + h + a] ∧ t.2.shape = [v.B, vp.B, h * n + a * n + n + h + a]
+      ∧ ∀ i j q, t.1.get [i, j, q] = (piGrad am ph phase (v.row i) (vp.row j)).1.flatten.getD q 0
+          ∧ t.2.get [i, j, q] = (piGrad am ph phase (v.row i) (vp.row j)).2.flatten.getD q 0)
+    ∧ (∀ B, v.batch = some B → vp.batch = some B →
+        ∃ t, piGradT am ph phase false v vp = .ok t
+          ∧ t.1.shape = [B, h * n + a * n + n + h + a] ∧ t.2.shape = [B, h * n + a * n + n + h + a]
+          ∧ ∀ i q, i < B → t.1.get [i, q] = (piGradNoExpand am ph phase (v.row i) (vp.row i)).1.flatten.getD q 0
+              ∧ t.2.get [i, q] = (piGradNoExpand am ph phase (v.row i) (vp.row i)).2.flatten.getD q 0)
+    ∧ ((v.batch = none ∨ vp.batch = none) → v.B = 1 → vp.B = 1 →
+        ∃ t, piGradT am ph phase false v vp = .ok t
+          ∧ t.1.shape = [h * n + a * n + n + h + a] ∧ t.2.shape = [h * n + a * n + n + h + a]
+          ∧ ∀ q, t.1.get [q] = (piGradNoExpand am ph phase (v.row 0) (vp.row 0)).1.flatten.getD q 0
+              ∧ t.2.get [q] = (piGradNoExpand am ph phase (v.row 0) (vp.row 0)).2.flatten.getD q 0)
+    ∧ (vp.B ≠ v.B → vp.B ≠ 1 → (phase = false ∨ v.B ≠ 1) → ∃ e, piGradT am ph phase false v vp = .error e)
+    ∧ (vp.B ≠ 1 → v.B = 1 → ∃ t, piGradT am ph true false v vp = .ok t
+        ∧ t.1.shape = (if (v.isOne || vp.isOne) = true then [h * n + vp.B * (a * n) + n + h + a]
+            else [1, h * n + vp.B * (a * n) + n + h + a])) := by
+  refine ⟨?_, ?_, ?_, ?_, ?_⟩
+  · obtain ⟨t1, h1, s1, g1⟩ := layoutT_expand v vp (fun i j => (piGrad am ph phase (v.row i) (vp.row j)).1)
+    obtain ⟨t2, h2, s2, g2⟩ := layoutT_expand v vp (fun i j => (piGrad am ph phase (v.row i) (vp.row j)).2)
+    exact ⟨(t1, t2), by simp only [piGradT, if_true, h1, h2], s1, s2, fun i j q => ⟨g1 i j q, g2 i j q⟩⟩
+  · intro B hv hvp
+    obtain ⟨t1, h1, s1, g1⟩ := layoutT_paired v vp (fun i j => (piGradNoExpand am ph phase (v.row i) (vp.row j)).1) B hv hvp
+    obtain ⟨t2, h2, s2, g2⟩ := layoutT_paired v vp (fun i j => (piGradNoExpand am ph phase (v.row i) (vp.row j)).2) B hv hvp
+    exact ⟨(t1, t2), by simp only [piGradT, Bool.false_eq_true, if_false, h1, h2], s1, s2,
+      fun i q hi => ⟨g1 i q hi, g2 i q hi⟩⟩
+  · intro hu hB hBp
+    obtain ⟨t1, h1, s1, g1⟩ := layoutT_1d v vp (fun i j => (piGradNoExpand am ph phase (v.row i) (vp.row j)).1) hu hB hBp
+    obtain ⟨t2, h2, s2, g2⟩ := layoutT_1d v vp (fun i j => (piGradNoExpand am ph phase (v.row i) (vp.row j)).2) hu hB hBp
+    exact ⟨(t1, t2), by simp only [piGradT, Bool.false_eq_true, if_false, h1, h2], s1, s2, fun q => ⟨g1 q, g2 q⟩⟩
+  · intro h1 h2 h3
+    refine ⟨.RuntimeError, ?_⟩
+    have hc : (phase && v.B == 1) = false := by
+      rcases h3 with h3 | h3
+      · simp [h3]
+      · simp [h3]
+    simp only [piGradT, Bool.false_eq_true, if_false, layoutT_refused v vp _ h1 h2, hc]
+  · intro h2 hB
+    have h1 : vp.B ≠ v.B := by rw [hB]; exact h2
+    refine ⟨_, by simp only [piGradT, Bool.false_eq_true, if_false, layoutT_refused v vp _ h1 h2, hB, Bool.true_and,
+      beq_self_eq_true, if_true]; rfl, ?_⟩
+    by_cases hu : (v.isOne || vp.isOne) = true
+    · simp [piGradOddT, hu, FT.squeeze0]
+    · simp [piGradOddT, hu]
+
+/-- satisfiable: `B = 2`, `B' = 3` rows on two sites (expand), and two 2-row batches (paired) -/
+example : ∃ v vp : RowsArg ℝ 2, v.B = 2 ∧ vp.B = 3 ∧ v.batch = some 2 :=
+  ⟨⟨some 2, fun i j => if i = 0 then 1 else j.val⟩, ⟨some 3, fun i _ => if i = 1 then 1 else 0⟩, rfl, rfl, rfl⟩
 
 end QV.Props
